@@ -52,7 +52,10 @@ RULE = ("three kinds of cases. stats: a sequence of 1..500 finite floats (offset
         "docstring; the model's exact values must equal the whole-sample values exactly. non-trivial = at least 3 samples, not "
         "all equal (stats/cov) or a stream on which the loop runs at least 3 iterations (rep); distinct by full case description")
 EXHAUSTIVE = {'quick': False, 'thorough': False}
-TRUSTED = ["fractions.Fraction arithmetic and float.as_integer_ratio (exact)",
+TRUSTED = ["harness/pynum2lean.py + anchors_numfn.py: that the translated method bodies mean in Lean what the Python means over an abstract "
+           "ordered field K (abs, `** 0.5` = sqrt and np.inf are parameters; the n-th call of fn returns f n; the progress-bar / print "
+           "statements guarded by `verbosity` have no effect on the statistics; KeyboardInterrupt is not modelled)",
+           "fractions.Fraction arithmetic and float.as_integer_ratio (exact)",
            "the tolerance formula and its calibration (module docstring): it bounds the float/exact gap, it is not proved"]
 ASSUMPTIONS = ["floating point is not reasoned about in Lean: the theorems are exact-arithmetic identities; the float/exact gap is the "
                "run-time-checked, data-scale-relative tolerance stated in harness/props/c19.py",
